@@ -3,6 +3,7 @@ import Mimium.Proofs.StateTreeApply
 import Mimium.Model.Core
 import Mimium.Props.C08
 import Mimium.Props.C05
+import Mimium.Proofs.LiveCoding
 /-!
 # C06 — hot-swapping an unchanged program is inaudible
 
@@ -169,3 +170,90 @@ example :
   · simp [lay, ConfSL, ConfS]
 
 end Mimium.Core
+
+/-! ## a whole session: swapping to the SAME program, any number of times, at any times
+
+`Model/LiveCoding.lean` composes the reference semantics, the published layout (`Publish.publishFn`), the flat image of the
+state tree (`FlatTree.serialize` / `deserialize`) and the VM's migration (`HotSwap.vmResume`) into `session`: run, hot swap,
+run, ….  For a program of the class of C05's theorems the session in which every swap event names the running program
+returns exactly the samples of the uninterrupted run — the property as a theorem about PROGRAMS of the reference semantics
+(every program of the class, every event list: every split point, repeated swaps at one time, any number of times, every
+run length, every input stream). -/
+namespace Mimium.LiveCoding
+open Mimium.Core Mimium.FlatTree Mimium.Publish
+
+/-- a session without swap events is the plain run -/
+theorem sessionFrom_nil (fuel : Nat) (sr : UInt64) (inputs : Nat → List UInt64) (P : Prog) :
+    ∀ (k : Nat) (m : Machine), sessionFrom fuel sr [] inputs k P m = runFrom fuel P sr inputs k m
+  | 0, _ => rfl
+  | k + 1, m => by
+    have e0 : swapMany fuel sr (eventsAt [] m.t) P m = some (P, m) := rfl
+    rw [sessionFrom, runFrom, e0]
+    simp only
+    cases Machine.step fuel P sr m (inputs m.t) with
+    | error e => rfl
+    | ok r => obtain ⟨o, m'⟩ := r; simp only [sessionFrom_nil fuel sr inputs P k m']
+
+/-- **hot-swapping an unchanged program is inaudible — for programs.**  Let `P` be a program whose `dsp` has the published
+layout `lay`, in the class of C05's evaluator theorems (no cell published for an `if` arm, here and in the callees; the
+stateful sites of every function body pairwise distinct, ring lengths < 2^64), started by `main` in machine `m0`, and let the
+uninterrupted run keep its globals and a `dsp` state conforming to the layout (rings of the layout's length, `self` values of
+the declared shape: typing facts) at every sample.  Then for EVERY list of swap events that all name `P` (any split points,
+any number of swaps, several at the same time), every run length `N` and every input stream, the session — each swap
+serialises the state tree under the published layout, migrates the words as `Machine::new_resume` does, reads them back
+under the published layout and re-runs `main` — returns exactly the samples of the uninterrupted run.
+PARTIAL with respect to the class `noStatefulInArms` of `C05_published_instance_is_flat_call_stateless_arms` (calls of
+functions WITHOUT state inside `if` arms): this theorem needs `Covers` (a cell for every named call site), which the
+published layout provides only in the narrow class `noStateInArms`; missing for the wide class: `eval_agree` for trees that
+agree on the published cells only (the evaluator cannot see the (stateless) child nodes at unpublished call sites). -/
+theorem C06_session_swap_same_program_partial (fuel : Nat) (sr : UInt64) (P : Prog) (lay : LNode)
+    (swaps : List (Nat × Prog)) (inputs : Nat → List UInt64) (N : Nat) (m0 : Machine)
+    (hsame : ∀ e ∈ swaps, e.2 = P)
+    (hpub : publishFn P P.dsp = some lay)
+    (harms : noStateInArms P P.dsp.body = true) (hs : SitesUnique P) (hd : SitesOk P.dsp.body)
+    (hinit : Machine.init fuel P sr = .ok m0)
+    (hgood : ∀ j m, machineAfter fuel P sr inputs j m0 = some m → m.store = m0.store ∧ ConformsS lay m.root) :
+    session fuel sr P swaps inputs N = runFrom fuel P sr inputs N m0 := by
+  obtain ⟨hself, _, hcov⟩ := C05_publishFn_visits P.fns.length P P.dsp lay harms hpub
+  have hl := C05_publish_ok P.fns.length P P.dsp lay hs hd hpub
+  have hag : MAgree lay m0 m0 := ⟨rfl, rfl, Agree.refl lay m0.root⟩
+  simp only [session, hinit]
+  rw [sessionFrom_same_program fuel sr inputs P lay hpub hl hself.symm hcov m0 hinit swaps hsame N m0 m0 hag hgood,
+    sessionFrom_nil]
+
+/-- the same for a program without globals: the global store is empty and stays empty, only the conformance of the
+`dsp` state along the uninterrupted run is assumed -/
+theorem C06_session_swap_same_program_no_globals_partial (fuel : Nat) (sr : UInt64) (P : Prog) (lay : LNode)
+    (swaps : List (Nat × Prog)) (inputs : Nat → List UInt64) (N : Nat) (m0 : Machine)
+    (hsame : ∀ e ∈ swaps, e.2 = P)
+    (hpub : publishFn P P.dsp = some lay)
+    (harms : noStateInArms P P.dsp.body = true) (hs : SitesUnique P) (hd : SitesOk P.dsp.body)
+    (hglob : P.globals = []) (hinit : Machine.init fuel P sr = .ok m0)
+    (hconf : ∀ j m, machineAfter fuel P sr inputs j m0 = some m → ConformsS lay m.root) :
+    session fuel sr P swaps inputs N = runFrom fuel P sr inputs N m0 := by
+  have h0 := (init_store_nil fuel P sr hglob m0 hinit).1
+  refine C06_session_swap_same_program_partial fuel sr P lay swaps inputs N m0 hsame hpub harms hs hd hinit
+    (fun j m hm => ⟨?_, hconf j m hm⟩)
+  rw [h0]
+  exact machineAfter_invariant fuel P sr inputs (fun m => m.store = [])
+    (fun m o m' hi h => step_store_nil fuel P sr m _ o m' hi h) j m0 m h0 hm
+
+/-! non-vacuity: `dsp(x) = mem(x)`: every hypothesis holds, for every fuel, input stream and every run length (the root never
+stores a `self`, the layout has one `mem` cell); a session with three swaps, two of them at the same time -/
+example (fuel : Nat) (sr : UInt64) (inputs : Nat → List UInt64) (N : Nat) (m0 : Machine)
+    (hinit : Machine.init fuel ⟨[], [], ⟨"dsp", ["x"], .mem (.var "x") 0, none⟩⟩ sr = .ok m0) :
+    let P : Prog := ⟨[], [], ⟨"dsp", ["x"], .mem (.var "x") 0, none⟩⟩
+    session fuel sr P [(2, P), (2, P), (5, P)] inputs N = runFrom fuel P sr inputs N m0 := by
+  intro P
+  have hroot := (init_store_nil fuel P sr rfl m0 hinit).2.1
+  refine C06_session_swap_same_program_no_globals_partial fuel sr P ⟨none, [.mem 0]⟩ _ inputs N m0 ?_ rfl rfl ?_ ?_ rfl hinit ?_
+  · intro e he; simp at he; rcases he with rfl | rfl | rfl <;> rfl
+  · intro d hd; simp [P] at hd
+  · simp [SitesOk, siteLens, P]
+  · intro j m hm
+    have : m.root.selfv = none :=
+      machineAfter_invariant fuel P sr inputs (fun m => m.root.selfv = none)
+        (fun m o m' hi h => step_selfv_none fuel P sr m _ o m' rfl hi h) j m0 m (by rw [hroot]; rfl) hm
+    exact ⟨this, by simp [ConfSL, ConfS]⟩
+
+end Mimium.LiveCoding
